@@ -123,6 +123,25 @@ void vh_fill_interesting(vh_rng *r, uint8_t *buf, size_t n)
     }
 }
 
+/* big-endian counter of n bytes whose low word (1, 2, 4, 8 bytes or the whole counter) lies just below the point where the
+   top bit of that word flips (0x7F..FF -> 0x80..00) or where the word wraps, with the bytes above it random, all-zero or
+   all-ones: a few increments (or decrements) later the word crosses its "sign" boundary, which byte-wise carry chains of
+   0xFF never do */
+void vh_fill_msb_boundary(vh_rng *r, uint8_t *buf, size_t n)
+{
+    static const unsigned widths[5] = {1, 2, 4, 8, 16};
+    size_t w = widths[vh_below(r, 5)], i; unsigned delta = vh_below(r, 13), kind = vh_below(r, 8), hi = vh_below(r, 3);
+    if (!n) return;
+    if (w > n) w = n;
+    if (hi == 0) vh_rand_bytes(r, buf, n); else memset(buf, hi == 1 ? 0 : 0xFF, n);
+    memset(buf + n - w, kind ? 0xFF : 0x00, w);
+    buf[n - w] = kind == 0 ? 0x80 : kind == 1 ? 0xFF : 0x7F;      /* 80 00..00 / FF FF..FF / 7F FF..FF (most often) */
+    for (i = 0; i < delta; ++i) {                                   /* subtract delta inside the word */
+        size_t j = n;
+        while (j > n - w) { --j; if (buf[j]-- != 0) break; }
+    }
+}
+
 uint32_t vh_wrap_len(vh_rng *r, uint32_t lo, uint32_t hi)
 {
     uint32_t s = 1 + vh_below(r, 5), j = 1 + vh_below(r, (1u << s) - 1), k = lo + vh_below(r, hi - lo + 1);
@@ -361,6 +380,9 @@ int vh_run(vh_case_fn fn)
             vh_sh->done_upto = end;
             if (vh_child_exit_hook) vh_child_exit_hook();
             fflush(stdout);
+#ifdef VH_COVERAGE
+            { extern void __gcov_dump(void); __gcov_dump(); }
+#endif
             _exit(0);
         }
         {   /* watchdog on progress */
